@@ -46,17 +46,29 @@ def run(prop, level, rule, plans, tags=None, keys=("plain",), modes=("compiled",
     tags = tags or [prop]
     scratch = {m: build.build(m) for m in modes}
     tot_states = tot_trans = 0
-    graphs = []
-    with cf.ThreadPoolExecutor(max_workers=4) as ex:
-        futs = {ex.submit(explore, p["universe"], p["variant"], p["depth"], p.get("simulate"), 4, p.get("emitidx", True),
-                          seed() + i, bool(p.get("episodes", episodes))): p for i, p in enumerate(plans)}
-        for f in cf.as_completed(futs):
-            g, r = f.result()
-            graphs.append((futs[f], g, r))
-    graphs.sort(key=lambda x: json.dumps(x[0], sort_keys=True))
+    # explore the plans with a small look-ahead and hand each graph to the replay as soon as it exists: graphs of the thorough tier
+    # are large, and every replay worker loads the graph it works on
+    order = sorted(range(len(plans)), key=lambda i: json.dumps(plans[i], sort_keys=True))
+    ex = cf.ThreadPoolExecutor(max_workers=2)
+    futs = {}
+
+    def submit(i):
+        p = plans[i]
+        futs[i] = ex.submit(explore, p["universe"], p["variant"], p["depth"], p.get("simulate"), 6, p.get("emitidx", True),
+                            seed() + i, bool(p.get("episodes", episodes)))
+
+    def graphs_iter():
+        for k in range(min(2, len(order))):
+            submit(order[k])
+        for k, i in enumerate(order):
+            g, r = futs.pop(i).result()
+            if k + 2 < len(order):
+                submit(order[k + 2])
+            yield plans[i], g, r
+        ex.shutdown()
     stats = collections.Counter()
     percfg = []
-    for plan, g, r in graphs:
+    for plan, g, r in graphs_iter():
         tot_states += len(g.states)
         tot_trans += len(g.edges)
         for kk in keys:
